@@ -41,6 +41,12 @@ CHECKS["C06"] = dict(
     "registered-name family; CrossHair on parse() for accept/reject; witnesses replayed on the real scanner and parser",
     design="§2 C06", engine="smt+crosshair")
 
+CHECKS["C07"] = dict(
+    text=LEVEL_TEXT_B + "this fixes the shape of all 16 statement kinds; plus " + LEVEL_TEXT_A + " (11 declaration queries x counts x "
+         "name-repetition patterns x placements x literal forms, oracle written from the statement).",
+    note=NOTE_B, technique="z3 regex equivalence grammar vs statement language + SMT keyword/number lexer lemmas; CrossHair on parse() and "
+    "the get_* query functions; counter-examples replayed concretely", design="§2 C07", engine="smt+crosshair")
+
 PENDING_REASON = "check not built yet in this session (planned, see DESIGN.md §2); not claimed until its quick command runs clean"
 NA = {
     "C20": "quantifies over process histories, interpreter starts and PYTHONHASHSEED values of code that must run untraced "
